@@ -38,7 +38,7 @@ _V = os.path.dirname(os.path.dirname(os.path.abspath(__file__)))
 for _p in ("bin", "gen", "checks"):
     if os.path.join(_V, _p) not in sys.path:
         sys.path.insert(0, os.path.join(_V, _p))
-import vlib, domhist, domcommon
+import vlib, domhist, domhist, domcommon
 import domall_extra as X
 
 # name, translation unit, relational?, k = dimension factor of the chain bound (ghost
@@ -379,6 +379,11 @@ def run_domain(prop, tier, seed, dom, exe, n, known, shrink_ok, base_answers):
         ba = run_cases(exe, name, bl, os.path.join(outd, stream + "-box.cases"))
         examine(res, prop, dom, exe, stream, "box", bl, ba, orc, known, shrink_ok)
         st["box_cases"] = len(bl)
+        # meets of arithmetic progressions, judged on a dense sample of small stores
+        cl = X.cong_meets(seed + 45, 40 if tier == "quick" else 800)
+        ca = run_cases(exe, name, cl, os.path.join(outd, stream + "-cong.cases"))
+        examine(res, prop, dom, exe, stream, "cong", cl, ca,
+                lambda l, a: domhist.oracle(l, X.drop_ghost_csts(a), None, checks, dense=True), known, shrink_ok)
     if prop in ("C03", "C04"):
         # boolean operations (never generated by the streams above): reified constraints,
         # their invalidation, boolean combinations, assume_bool, lattice operations and inclusion
